@@ -159,7 +159,7 @@ pub fn gen_text(rng: &mut Rng, specials: &[String], ascii_only: bool) -> String 
         let base = gen::ustring(rng, flavor, 40);
         chars_of(&base, false).iter().map(|s| s.to_string()).collect()
     };
-    let k = *[0usize, 1, 1, 2, 3].choose(rng).unwrap();
+    let k = gen::sc(*[0usize, 1, 1, 2, 3].choose(rng).unwrap());
     for _ in 0..k {
         let sp: String = if rng.random_bool(0.8) && !specials.is_empty() {
             specials.choose(rng).unwrap().clone()
@@ -324,9 +324,16 @@ impl Prop for C01 {
     const ID: &'static str = "C01";
 
     fn lanes(tier: Tier) -> Vec<Lane> {
-        vec![Lane::new("main", tier.pick(400_000, 9_000_000))
-            .cap(tier.pick(150, 900))
-            .floor(tier.pick(30_000, 400_000))]
+        vec![
+            Lane::new("main", tier.pick(400_000, 9_000_000))
+                .cap(tier.pick(150, 900))
+                .floor(tier.pick(30_000, 400_000)),
+            // the same generator with every length 10 / 50 / 250 times bigger (texts of up to
+            // 10 000 symbols with up to 750 injected special spellings)
+            Lane::new("large", tier.pick(4_000, 80_000))
+                .cap(tier.pick(150, 900))
+                .floor(tier.pick(300, 4_000)),
+        ]
     }
 
     fn rule() -> &'static str {
